@@ -758,7 +758,14 @@ class StrategyBase(Node):
         # update data if this value is different or
         # if now has changed - avoid all this if not since it
         # won't change
-        if newpt or not is_zero(self._value - val) or not is_zero(self._notl_value - notl_val):
+        # a flow recorded since the last update of this date changes the return
+        # even when it leaves the value where it was
+        if (
+            newpt
+            or not is_zero(self._value - val)
+            or not is_zero(self._notl_value - notl_val)
+            or not is_zero(self._all_flows.array[inow] - self._net_flows)
+        ):
             self._value = val
             self._values.array[inow] = val
 
